@@ -21,7 +21,7 @@ import common as C   # noqa
 import h_verify as HV   # noqa
 
 PRIOR = ['consistent', 'empty', 'stale', 'dup-equal', 'dup-superset', 'dup-parent-child', 'unregistered-sub',
-         'two-in-dir', 'extra-lines', 'compressed-top-ref']
+         'two-in-dir', 'extra-lines', 'compressed-top-ref', 'siblings-share-file', 'entry-under-ignore', 'dotfile-entry']
 EDITS = ['add', 'modify', 'delete', 'add-dir', 'none']
 
 
@@ -101,6 +101,38 @@ def prepare(root, rng, prior, case):
                                        C.entry_line('DATA', 'gone-file', b'zz', ['SHA1'])])
     elif prior == 'compressed-top-ref':
         pass
+    elif prior == 'siblings-share-file':
+        # two Manifests of one directory (both referenced from the top) list the same, since edited, file with different hash sets
+        d = [x for x in case['dirs'][1:] if x not in case['mdirs'] and not C.path_covered(case['ignores'], x)]
+        fl = [f for f in sorted(listed) if d and os.path.dirname(f) == d[0]]
+        if d and fl:
+            sub = d[0]
+            shared = fl[0]
+            others = fl[1:]
+            keep = [l for l in lines if not any(C.unescape(l.split()[1]) == f for f in fl if len(l.split()) > 1)]
+            m1 = [C.entry_line('DATA', os.path.basename(shared), case['files'][shared], ['MD5'])] + \
+                 [C.entry_line('DATA', os.path.basename(f), case['files'][f], ['SHA1', 'SHA512']) for f in others]
+            m2 = [C.entry_line('DATA', os.path.basename(shared), case['files'][shared], ['SHA1'])]
+            C.write_manifest(os.path.join(root, sub, 'Manifest'), m1)
+            C.write_manifest(os.path.join(root, sub, 'Manifest.files'), m2)
+            for name in ('Manifest', 'Manifest.files'):
+                with open(os.path.join(root, sub, name), 'rb') as fh:
+                    keep.append(C.entry_line('MANIFEST', os.path.join(sub, name), fh.read(), ['SHA1']))
+            C.write_manifest(top, keep)
+            with open(os.path.join(root, shared), 'wb') as fh:
+                fh.write(b'edited after being listed twice')
+    elif prior == 'entry-under-ignore':
+        # an entry for a path that an IGNORE now covers, with stale data
+        if case['ignores']:
+            ig = case['ignores'][0]
+            os.makedirs(os.path.join(root, ig), exist_ok=True)
+            with open(os.path.join(root, ig, 'cached'), 'wb') as fh:
+                fh.write(b'new contents')
+            C.write_manifest(top, lines + [C.entry_line('DATA', ig + '/cached', b'old', ['SHA1'])])
+    elif prior == 'dotfile-entry':
+        with open(os.path.join(root, '.dot'), 'wb') as fh:
+            fh.write(b'new dot contents')
+        C.write_manifest(top, lines + [C.entry_line('DATA', '.dot', b'old', ['SHA1'])])
     return listed
 
 
